@@ -126,7 +126,8 @@ class IndexableArray(RaggedBase):
             raise IndexError(
                 f"Index ({row}, {col}) out of bounds for array with shape {self._shape}"
             )
-        col = np.asanyarray(col)
+        # unsigned indices would promote to float64 when combined with the signed row offsets
+        row, col = (v.astype(np.int64) if v.dtype.kind == "u" else v for v in (row, col))
         col = np.where(col < 0, self._shape.lengths[row]+col, col)
         flat_idx = self._shape.starts[row] + col
         return flat_idx, None
